@@ -217,6 +217,8 @@ func (in *interp) evalIdent(fr *frame, e *a.Expr) value {
 }
 
 func (in *interp) constArray(ci *constInfo) arrayRef {
+	in.p.constMu.Lock()
+	defer in.p.constMu.Unlock()
 	if ci.arr.m != nil {
 		return ci.arr
 	}
@@ -700,6 +702,13 @@ func (in *interp) evalArgs(fr *frame, fn *funcInfo, argNodes []*a.Node) []value 
 		ae := o.AsArg().Value()
 		v := in.eval(fr, ae)
 		prm := fn.args[i]
+		if v.k == vkIO && ae.Operator() == 0 && !fr.fn.derived && in.monitoring() {
+			// internal/cgen/statement.go only saves / reloads the iop_ pointers
+			// around a call when the calling function has "derived" I/O
+			// arguments: without one, what the callee reads or writes through
+			// a local io_bind'ed buffer is invisible to the caller.
+			in.event(Event{Prop: "C04", Kind: "io-local-not-synced-around-call", Node: in.nodeText(fr, ae), Line: fr.line})
+		}
 		if prm.typ.IsNumType() {
 			nt := in.p.numTypeOf(prm.typ)
 			v.n = in.checkRange(fr, "arg-range", ae, v.n, nt)
@@ -753,7 +762,8 @@ func (in *interp) evalCall(fr *frame, e *a.Expr) value {
 	}
 	this, fn, args := in.prepareUserCall(fr, e)
 	if fn == nil { // reset!
-		in.resetObject(this)
+		recv := method.LHS().AsExpr()
+		in.resetObject(this, recv.IsThisDotFoo() != 0)
 		return value{k: vkNone}
 	}
 	return in.invoke(fr, fn, this, args, e.Args())
